@@ -21,7 +21,7 @@ META = {
 
 
 def programs(ctx):
-    base = [c for c in F.f_unit(4)] + F.f_shape() + F.f_rand(ctx.seed, 30 if ctx.quick else 300, consts=False)
+    base = [c for c in F.f_unit(4)] + F.f_shape() + F.f_rand(ctx.seed, 30 if ctx.quick else 300, consts=False) + ([] if ctx.quick else F.f_small(2))
     out = []
     for cid, spec in base:
         A = Net.from_spec(spec)
